@@ -83,6 +83,7 @@ class Inst:
     desc: str = ""
     funcs: list = field(default_factory=list)     # real functions encoded
     bound: str = ""
+    gi_args: list = field(default_factory=list)   # goto-instrument args applied to the linked binary (logged)
     pre_link: list = field(default_factory=list)  # [(repo TU list, goto-instrument args)] see build()
     cost: float = 1.0           # scheduling weight (expensive first)
     nb: int = 0
@@ -169,6 +170,14 @@ def compile_goto(prop, inst, extra_defs=None):
     log += " ".join(cmd) + "\n" + r.stdout
     if r.returncode != 0:
         return None, log
+    if inst.gi_args:
+        out2 = os.path.join(d, "inst_gi.gb")
+        cmd = ["goto-instrument"] + inst.gi_args + [out, out2]
+        r = sh(cmd)
+        log += " ".join(cmd) + "\n" + r.stdout[-3000:]
+        if r.returncode != 0:
+            return None, log
+        out = out2
     return out, log
 
 
